@@ -29,6 +29,29 @@ def argv(r):
         for _ in range(r.randint(1, 4)):
             av += [r.choice(["-m", "-c", "-c", "--cut", "--move"]), keyfuzz(r)]
         return av, "keys"
+    if k < 0.66:
+        # the malformed shapes the property names: -r counts larger than the command list (top level, inside -g,
+        # inside --else), unclosed -g, --else/--end without a scope, -g without commands
+        n = r.choice([0, 1, 2, 5, 99])
+        body = []
+        for _ in range(r.randint(0, 2)):
+            body += [r.choice(["-c", "-m"]), r.choice(["e", "w", "$", "dw", "x"])]
+        shape = r.randrange(7)
+        if shape == 0:
+            av = body + ["-r", str(n), str(r.randint(0, 3))]
+        elif shape == 1:
+            av = ["-g", r.choice(gen.PATTERNS)] + body + ["-r", str(n), str(r.randint(0, 3)), "--end"]
+        elif shape == 2:
+            av = ["-g", r.choice(gen.PATTERNS)] + body + ["--else", "-r", str(n), "1", "--end"]
+        elif shape == 3:
+            av = ["-v", r.choice(gen.PATTERNS)] + body + ["-r", str(n), "1"]          # unclosed
+        elif shape == 4:
+            av = body + r.choice([["--else"], ["--end"], ["-g"], ["-g", "o"], ["-r"], ["-r", "x"], ["-r", "1"], ["-c"], ["-m"], ["-c", "name=a"]])
+        elif shape == 5:
+            av = ["-g", r.choice(gen.PATTERNS), "-g", r.choice(gen.PATTERNS)] + body + ["-r", str(n), "2", "--end"] + body
+        else:
+            av = ["--linewise", "-g", r.choice(gen.PATTERNS)] + body + ["-r", str(n), "1", "--end", "-c", "e"]
+        return av + r.choice([[], ["--json"], ["--linewise"]]), "cli_scopes"
     if k < 0.75:
         return gen.items_argv(gen.flag_items(r)) + r.choice([[], ["--json"], ["--linewise"], ["-t", "{{1}}-{{2}}"], ["-d", ","], ["--trim-fields"], ["--keep-mode"]]), "cli"
     if k < 0.85:
